@@ -72,3 +72,10 @@ CHECKS["C18"] = dict(
     text="For ~2 800 (quick) / ~20 000 (thorough) enumerated and sampled expression sets (1-3 expressions, AND/OR nesting to depth 2-3, 'X+' and 'X WITH E' atoms) the real FileReport.generate computes LicenseConcluded and z3 decides that `conjunction != concluded` is unsatisfiable. CrossHair explores the real bill_of_materials for 1-2 files with names, copyright texts, licence lists and creator forms chosen from lists of awkward shapes and checks with a reference reader: one File section per report and no other, unique SPDXIDs matched by exactly one DESCRIBES each, fields equal to the report's, LicenseRef texts included, creator rendered.",
     note="PARTIAL: SHA-1/MD5 are outside (hash loops; hashlib's contract), as are the covered-file set (C03) and the full tag-value grammar. Names are chosen from lists because the writer on symbolic strings exceeded every path budget. SPDXID distinctness is checked concretely through the real generate on near-identical names with identical checksums.",
 )
+
+CHECKS["C14"] = dict(
+    engine="RZ3+XH",
+    technique="SMT (z3 regular expressions): pairwise commutation / language difference of the terminator groups of the real _END_PATTERN across hash seeds; symbolic execution (CrossHair) of report generation and REUSE.toml lookup under symbolic permutations of enumeration order",
+    text="The groups of the real _END_PATTERN are harvested; z3 decides for lines of any length which pairs commute, the module is imported under 8 (quick) / 24 (thorough) PYTHONHASHSEED values and, when two pattern texts differ, z3 produces a line on which the two languages differ, which is replayed through extract_reuse_info under both seeds. CrossHair confirms over all paths that ProjectReport.generate + _find_licenses give the same normalised report for every order of 3 files and several orders of the LICENSES listing, and that NestedReuseTOML gives the same result for permuted reuse_tomls (3 levels x 13 shapes).",
+    note="PARTIAL: real process scheduling (mp.Pool), pickling, the per-worker dep5 re-parse, real readdir order, cwd and root spelling are OS-level and outside the claim. Fixed: set-ordered _END_PATTERN (091a0b8) - the check reports it again if it returns.",
+)
